@@ -436,7 +436,8 @@ int check_main(int argc, char **argv) {
   ev.set("coverage", cov);
   Json as = Json::arr(); for (auto &x : def->assumptions) as.push(x); ev.set("assumptions", as);
   ev.set("wall_s", wall).set("violations", nviol);
-  write_file_host(g_verif_dir + "/evidence/" + id + ".json", ev.dump(1));
+  { const char *ed = getenv("VERIF_EVIDENCE_DIR");   // development only: keep the committed evidence when a check runs against a deliberately broken tree
+    write_file_host((ed ? std::string(ed) : g_verif_dir + "/evidence") + "/" + id + ".json", ev.dump(1)); }
   printf("simq: %llu runs (%llu non-trivial, %llu inconclusive), %llu distinct schedules, %llu abstract states, %.1fs wall, %d violation(s), exit %d\n", (unsigned long long)s.runs, (unsigned long long)s.nontrivial,
          (unsigned long long)s.inconclusive, (unsigned long long)s.sched.size(), (unsigned long long)s.states.size(), wall, nviol, exit_code);
   return exit_code;
